@@ -467,6 +467,67 @@ fn cache_rehistory(ab_a: &[u8], offs_a: &[u32], ab_b: &[u8], offs_b: &[u32], fir
     None
 }
 
+/// rows (address, end flag) of a line program given as `s<addr>,a<d>,r,e` instructions
+fn line_rows(ins: &str) -> Option<Result<Vec<(u64, bool)>, String>> {
+    let prog = crate::prop::c12::assemble_ins(ins)?;
+    let secs = crate::prop::c12::assembled_line_unit_with(-5, 14, &prog);
+    let line = &secs.iter().find(|(n, _)| n == "debug_line")?.1;
+    let dl = gimli::read::DebugLine::new(line, LittleEndian);
+    let program = match dl.program(gimli::DebugLineOffset(0), 8, None, None) {
+        Ok(p) => p,
+        Err(e) => return Some(Err(rerr(&e))),
+    };
+    let mut rows = program.rows();
+    let mut out = Vec::new();
+    loop {
+        match rows.next_row() {
+            Ok(Some((_, row))) => out.push((row.address(), row.end_sequence())),
+            Ok(None) => return Some(Ok(out)),
+            Err(e) => return Some(Err(rerr(&e))),
+        }
+    }
+}
+
+/// one `LineRows` over a program made of several sequences must report, for each sequence, what a
+/// fresh `LineRows` over that sequence alone reports (and what `sequences()` + `resume_from` give)
+fn line_history(seqs: &[&str]) -> Option<String> {
+    let whole = seqs.join(",");
+    let together = match line_rows(&whole)? {
+        Ok(r) => r,
+        Err(e) => return Some(format!("line-history-error {e}")),
+    };
+    let mut apart = Vec::new();
+    for s in seqs {
+        match line_rows(s)? {
+            Ok(r) => apart.extend(r),
+            Err(e) => return Some(format!("line-history-error {e}")),
+        }
+    }
+    if together != apart {
+        return Some(format!("line-history reused LineRows reports {:?}, fresh per sequence {:?}", together, apart));
+    }
+    // sequences() + resume_from
+    let prog = crate::prop::c12::assemble_ins(&whole)?;
+    let secs = crate::prop::c12::assembled_line_unit_with(-5, 14, &prog);
+    let line = &secs.iter().find(|(n, _)| n == "debug_line")?.1;
+    let dl = gimli::read::DebugLine::new(line, LittleEndian);
+    if let Ok(program) = dl.program(gimli::DebugLineOffset(0), 8, None, None) {
+        if let Ok((complete, sequences)) = program.sequences() {
+            let mut resumed = Vec::new();
+            for sq in &sequences {
+                let mut rows = complete.resume_from(sq);
+                while let Ok(Some((_, row))) = rows.next_row() {
+                    resumed.push((row.address(), row.end_sequence()));
+                }
+            }
+            if resumed != together {
+                return Some(format!("line-resume resumed rows {:?}, straight rows {:?}", resumed, together));
+            }
+        }
+    }
+    None
+}
+
 pub fn handle(op: &str, a: &[&str]) -> Option<String> {
     let verdict = |o: Option<String>| match o {
         None => "ok same".to_string(),
@@ -503,6 +564,10 @@ pub fn handle(op: &str, a: &[&str]) -> Option<String> {
                 return Some("bad-op".into());
             }
             Some(verdict(cache_rehistory(&unhex(ab_a)?, &pa, &unhex(ab_b)?, &pb, first, second, how)))
+        }
+        ("c20-line", [seqs]) => {
+            let v: Vec<&str> = seqs.split(';').collect();
+            Some(verdict(line_history(&v)))
         }
         ("c20-cache", [ab, offs]) => {
             let offs: Vec<u32> = offs.split(',').map(|s| s.parse().ok()).collect::<Option<_>>()?;
@@ -646,6 +711,35 @@ pub fn gen(ctx: &Ctx, emit: &mut dyn FnMut(String)) {
         let n = 1 + rng.below(6);
         let l: Vec<String> = (0..n).map(|_| rng.pick(&offs).to_string()).collect();
         emit(format!("c20-cache {} {}", hex(&ab), l.join(",")));
+    }
+    // line-number rows: every history of up to 3 (4 in the thorough tier) sequences of these kinds
+    // on one LineRows vs each sequence on its own
+    {
+        let kinds = [
+            "s4096,r,a4,r,a4,e",                       // live
+            "s18446744073709551615,r,a4,r,e",          // wholly tombstoned
+            "s8192,r,a4,r,s18446744073709551615,r,e",  // partially tombstoned tail
+            "s12288,r,a8,s16,r,s12400,r,e",            // a tombstoned stretch in the middle
+            "e",                                       // only an end row
+            "r,a4,e",                                  // no set_address
+            "s18446744073709551614,e",                 // tombstone, no rows
+        ];
+        let maxlen = if ctx.tier == Tier::Thorough { 4 } else { 3 };
+        let mut level: Vec<Vec<usize>> = vec![vec![]];
+        for _ in 0..maxlen {
+            let mut next = Vec::new();
+            for h in &level {
+                for k in 0..kinds.len() {
+                    let mut t = h.clone();
+                    t.push(k);
+                    next.push(t);
+                }
+            }
+            for h in &next {
+                emit(format!("c20-line {}", h.iter().map(|&k| kinds[k]).collect::<Vec<_>>().join(";")));
+            }
+            level = next;
+        }
     }
     // caches with a past: another file whose tables sit at the same offsets with other contents
     // (valid where the first is invalid and the other way round)
